@@ -199,6 +199,10 @@ with tempfile.TemporaryDirectory() as d:
                     samples.append({"statepoints": [jobs[i][1] for i in sel_ids]})
     if diff_jobs() != {}:
         failures.append({"key": "diff-empty", "description": "diff_jobs() of no jobs is not {}", "script": "from signac.diff import diff_jobs\nassert diff_jobs() == {}\n"})
+    for key, msg in mappings_in_lists_check():
+        failures.append({"key": "mapping-inside-list:" + key, "description": msg,
+                         "script": script_header() + "sys.path.insert(0, '/verif')\nfrom pybound.c18 import mappings_in_lists_check\nr = mappings_in_lists_check()\nassert not r, r\n"})
+    evals += 6
     # probe of known finding F3 on the schema side
     with project_scratch() as p:
         p.open_job({"v": True}).init()
@@ -208,6 +212,7 @@ with tempfile.TemporaryDirectory() as d:
         if got != {"bool": {True}, "int": {1}}:
             failures.append({"key": "find:$type-bool-conflation", "description": "known finding F3 (schema side)", "script": ""})
     return {"scope": "corpora of 0-8 jobs over 3 keys x 15 values (int / equal float / bool, lists, None, nested and empty mappings, scalar-vs-mapping under one key), "
-                     "random subsets, exclude_const on/off; corpora triggering known finding F3 are excluded from the schema comparison",
+                     "random subsets, exclude_const on/off; corpora triggering known finding F3 are excluded from the schema comparison; plus lists holding mappings (holding mappings) "
+                     "spelled in two key orders: one value, constant under exclude_const, absent from the diff",
             "evaluations": evals, "distinct_nontrivial": len(distinct), "rule": "a case is one detect_schema or diff_jobs call; distinct by (kind, #jobs, options, size of the summary)",
             "samples": samples, "failures": failures}
